@@ -162,47 +162,60 @@ def check_pre(vals, expect, needs_base):
 
 
 def decode_matches(isa, mn, expect, code, base, vals):
+    """``code`` = the bytes of exactly one instruction located at address ``base``.
+
+    Arithmetic decoder (ref.pdp11_isa.decode_as): the opcode word may stay symbolic."""
     if len(code) < 2 or len(code) % 2:
         return False
+    if "D" in vals and "OFF" not in vals:
+        vals = {**vals, "OFF": vals["D"] - 2}
     ws = words(code)
-    ws[0] = concretize(ws[0])
-    d = isa.decode(ws, base)
+    primary, exp = expected_after_alias(mn, expect)
+    d = isa.decode_as(primary, ws[0])
     if d is None:
         return False
-    primary, exp = expected_after_alias(mn, expect)
-    if primary not in d["names"]:
+    fmt, got_ops = d
+    if len(got_ops) != len(exp):
         return False
-    if d["nwords"] != len(ws):
-        return False
-    if len(d["operands"]) != len(exp):
-        return False
-    ok = True
-    for got, e in zip(d["operands"], exp):
+    n = 1  # words consumed so far
+    for got, e in zip(got_ops, exp):
         if e["kind"] == "g":
-            if got["kind"] != "g" or got["mode"] != e["mode"]:
+            if got[0] != "g":
                 return False
             reg = vals[e["reg"]] if isinstance(e["reg"], str) else e["reg"]
-            ok = ok and (got["reg"] == reg)
-            if e.get("ext") == "value":
-                ok = ok and ("ext" in got) and (got["ext"] == vals[e["x"]] % 65536)
-            elif e.get("ext") == "pcrel":
-                ok = ok and ("ea" in got) and (got["ea"] == vals[e["x"]] % 65536)
-            elif e.get("ext") == "zero":
-                ok = ok and ("ext" in got) and (got["ext"] == 0)
-            else:
-                ok = ok and ("ext" not in got)
+            if not (got[1] == e["mode"]):
+                return False
+            if not (got[2] == reg):
+                return False
+            if e.get("ext") is not None:
+                if n >= len(ws):
+                    return False
+                ext = ws[n]
+                n += 1
+                if e["ext"] == "value":
+                    if not (ext == vals[e["x"]] % 65536):
+                        return False
+                elif e["ext"] == "pcrel":
+                    # effective address as the processor computes it: ext + address of the next word
+                    if not ((ext + base + 2 * n) % 65536 == vals[e["x"]] % 65536):
+                        return False
+                elif e["ext"] == "zero":
+                    if not (ext == 0):
+                        return False
         elif e["kind"] == "r":
-            if got["kind"] != "r":
-                return False
             reg = vals[e["reg"]] if isinstance(e["reg"], str) else e["reg"]
-            ok = ok and (got["value"] == reg)
+            if got[0] != "r" or not (got[1] == reg):
+                return False
         elif e["kind"] == "ac":
-            ok = ok and got["kind"] == "ac" and got["value"] == e["value"]
+            if got[0] != "ac" or not (got[1] == e["value"]):
+                return False
         elif e["kind"] == "n":
-            ok = ok and got["kind"] == "n" and got["value"] == vals["N"]
+            if got[0] != "n" or not (got[1] == vals["N"]):
+                return False
         elif e["kind"] == "disp":
-            ok = ok and got["kind"] == "disp" and (got["target"] == base + vals["D"])
-    return ok
+            if got[0] != "disp" or not (got[1] == vals[e.get("offvar", "OFF")]):
+                return False
+    return n == len(ws)
 
 
 def h_insn(params, vals, ctx):
@@ -240,7 +253,7 @@ def h_synonym(params, vals, ctx):
 def _ob(mn, fms, tier, tag=""):
     text, vars_, expect, nb = build(mn, list(fms))
     nsym_r = sum(1 for v in vars_ if v.startswith("R"))
-    timeout = 120 if nsym_r < 2 else 400
+    timeout = 150 if nsym_r < 2 else 400
     return Ob(oid=f"insn/{mn}/{'+'.join(fms) or '-'}{tag}", harness=H, params={"mn": mn, "forms": list(fms)},
               vars={v: "int" for v in vars_}, timeout=timeout, per_path=60,
               note=text.replace("\n", " / "), pre="registers 0..7, |X|<2^16, inline fields in range, even branch distance in reach, 0<=B<65536")
